@@ -37,6 +37,14 @@ def run_property(prop: str, tier: str, only_rule=None, repo=REPO,
         mod.run(ctx)
         if tier == "thorough" and hasattr(mod, "run_thorough"):
             mod.run_thorough(ctx)
+        if tier == "thorough" and write and not os.environ.get("VERIF_NO_WITNESS"):
+            # A12: the checker is tested both ways on scratch copies of the current tree
+            from .witness import run_witnesses
+            w = run_witnesses(prop, repo)
+            ctx.witness = {k: w.get(k) for k in ("run", "ok", "skipped", "failed")}
+            if w.get("failed"):
+                raise AnalysisError("witness harness: the checker misbehaves on "
+                                    + ", ".join(f"{x[0]} ({x[1]})" for x in w["failed"]))
     except AnalysisError as e:
         print(f"ANALYSIS-ERROR property={prop} {e}")
         if ctx is not None and write:
